@@ -33,6 +33,10 @@ enum Form {
     P,
     W,
     DF,
+    /// derived expression whose variable list has a name that does not occur: (a*0) + T
+    UnusedFirst,
+    /// the same with a name that sorts last: (w*0) + T
+    UnusedLast,
 }
 
 fn build(form: Form, text: &str) -> Result<SFlat, String> {
@@ -42,6 +46,13 @@ fn build(form: Form, text: &str) -> Result<SFlat, String> {
         Form::DF => {
             let d = SDeep::parse(text).map_err(|e| e.msg().to_string())?;
             SFlat::from_deepex(d).map_err(|e| e.msg().to_string())
+        }
+        Form::UnusedFirst | Form::UnusedLast => {
+            let extra = if matches!(form, Form::UnusedFirst) { "a" } else { "w" };
+            let d = SDeep::parse(text).map_err(|e| e.msg().to_string())?;
+            let z = (SDeep::parse(extra).map_err(|e| e.msg().to_string())? * SDeep::zero()).map_err(|e| e.msg().to_string())?;
+            let sum = (z + d).map_err(|e| e.msg().to_string())?;
+            SFlat::from_deepex(sum).map_err(|e| e.msg().to_string())
         }
     }
 }
@@ -55,7 +66,22 @@ fn check_text(text: &str, tree: &Tree, t: &Table, acc: &mut Acc) {
     if vars.iter().any(|v| count_var(tree, v) > 1) {
         acc.nontrivial += 1;
     }
-    for form in [Form::P, Form::W, Form::DF] {
+    let base_vars = vars.clone();
+    let base_expect = expect.clone();
+    for form in [Form::P, Form::W, Form::DF, Form::UnusedFirst, Form::UnusedLast] {
+        // the derived forms carry one more (unused) variable
+        let (vars, n, expect) = match form {
+            Form::UnusedFirst | Form::UnusedLast => {
+                let extra = if matches!(form, Form::UnusedFirst) { "a" } else { "w" };
+                let mut v = base_vars.clone();
+                v.push(extra.to_string());
+                v.sort();
+                let e = nf_ac(&tree.eval_sym(&v, t), t);
+                let n = v.len();
+                (v, n, e)
+            }
+            _ => (base_vars.clone(), base_vars.len(), base_expect.clone()),
+        };
         let r = guard(|| -> Result<(), String> {
             let e = build(form, text)?;
             if e.var_names() != vars.as_slice() {
@@ -200,7 +226,7 @@ pub fn run(tier: Tier) -> i32 {
     rep.bounds.push(format!("all operand sequences of length 1..={max_len} over {operands:?} x 4 operator patterns x unary positions: complete"));
     // trees (parentheses, nested unaries)
     let al = Alphabet { leaves: vec![Tree::var("x"), Tree::var("y"), Tree::var("z"), Tree::lit(1)], uns: vec![2, 4], bins: vec![0, 1, 2, 3] };
-    let sizes = if tier.thorough() { vec![(1, 1), (2, 0), (2, 1), (2, 2), (3, 0), (3, 1), (3, 2), (4, 0), (4, 1), (5, 0), (5, 1)] } else { vec![(1, 1), (2, 0), (2, 1), (3, 0), (3, 1), (4, 0), (4, 1), (5, 0)] };
+    let sizes = if tier.thorough() { vec![(1, 1), (2, 0), (2, 1), (2, 2), (3, 0), (3, 1), (3, 2), (4, 0), (4, 1), (5, 0), (5, 1)] } else { vec![(1, 1), (2, 0), (2, 1), (3, 0), (3, 1), (4, 0), (4, 1)] };
     let space = TreeSpace::new(al, &sizes);
     let accs = par_ranges(
         space.total,
